@@ -332,10 +332,10 @@ def setup(ctx):
 def run(ctx):
     ctx.enumerate(ctx.p_gallery, gallery_cases(ctx), batch=50, name="gallery drawings re-drawn by the renderer (layout variants)")
     ctx.forall(ctx.p_round, ctx.scale(4000, 300000), batch=200)
-    bases = corruption_bases(ctx, ctx.scale(6, 80), True) + corruption_bases(ctx, ctx.scale(0, 40), False)
+    bases = corruption_bases(ctx, ctx.scale(6, 60), True) + corruption_bases(ctx, ctx.scale(0, 20), False)
     ctx.enumerate(ctx.p_corrupt, single_corruptions(bases), batch=1000,
                   name="every position x {delete, blank, each box glyph} of generated drawings, both builds", exhaustive=True)
-    ctx.forall(ctx.p_sampled, ctx.scale(1500, 120000), batch=50)
+    ctx.forall(ctx.p_sampled, ctx.scale(1500, 40000), batch=50)
     ctx.forall(ctx.p_damage, ctx.scale(4000, 600000), batch=500)
 
 
